@@ -1,4 +1,602 @@
 import KsiVerif.Model.Anchor
-/-! # C04 — (under construction) -/
+import KsiVerif.Props.C02
+/-! # C04 — trust-anchor policies say OK only if the calendar root is bound to the anchor -/
 namespace KsiVerif.Props.C04
+open KsiVerif KsiVerif.HashChain KsiVerif.Policy KsiVerif.Verify KsiVerif.PubFile KsiVerif.Anchor KsiVerif.Props.C01
+
+/-! ## the internal rules are the same rules in every world -/
+
+theorem rhoA_internal (H : HashFn) (s : Sig) (x : VCtx) (w : World) : ∀ id ∈ C02.internalIds, ρA H s x w id = ρ H s x id := by
+  intro id hid
+  have : id ∈ [25, 26, 34, 27, 3, 1, 47, 48, 49, 50, 2, 4, 0, 7, 8, 5, 6, 17, 18, 20, 16, 22, 15, 51, 11, 12, 9, 10, 52, 54, 55] := hid
+  simp only [List.mem_cons, List.not_mem_nil, or_false] at this
+  rcases this with rfl | rfl | rfl | rfl | rfl | rfl | rfl | rfl | rfl | rfl | rfl | rfl | rfl | rfl | rfl | rfl | rfl | rfl | rfl | rfl |
+    rfl | rfl | rfl | rfl | rfl | rfl | rfl | rfl | rfl | rfl | rfl <;> rfl
+
+theorem ρx_ρA (H : HashFn) (s : Sig) (x : VCtx) (w : World) : C02.ρx H s x (ρA H s x w) = ρA H s x w := by
+  funext id
+  unfold C02.ρx
+  by_cases h : id ∈ C02.internalIds
+  · rw [if_pos h, rhoA_internal H s x w id h]
+  · rw [if_neg h]
+
+/-- the five trust-anchor policies -/
+def five : List PolicyRules := [Gen.policy_calendar, Gen.policy_key, Gen.policy_pubfile, Gen.policy_userpub, Gen.policy_general]
+
+theorem five_sub_six : ∀ P ∈ five, P ∈ C02.six := by
+  intro P hP
+  simp only [five, List.mem_cons, List.not_mem_nil, or_false] at hP
+  rcases hP with rfl | rfl | rfl | rfl | rfl <;> simp [C02.six]
+
+/-- **A signature that fails internal verification is never OK under any of these policies**, whatever the extender, the
+publications file, the PKI and the user supply. -/
+theorem never_ok_unless_consistent (H : HashFn) (s : Sig) (x : VCtx) (w : World) (P : PolicyRules) (hP : P ∈ five)
+    (h : (verifyIn H P s x w).isOK) : Consistent H s x := by
+  unfold verifyIn at h
+  rw [← ρx_ρA] at h
+  exact C02.ok_only_if_consistent H s x (ρA H s x w) P (five_sub_six P hP) h
+
+/-! ## helpers -/
+
+theorem not_okB_naGen : ¬ okB naGen := fun h => by cases h.2
+theorem not_okB_resourceFailure (e : Nat) : ¬ okB (resourceFailure e) := by
+  unfold resourceFailure
+  split
+  · exact not_okB_err _
+  · exact fun h => by cases h.2
+
+theorem okIf_ok (b : Bool) (bad : Outcome) (hb : ¬ okB bad) (h : okB (okIf b bad)) : b = true := by
+  unfold okIf at h
+  cases b with
+  | true => rfl
+  | false => exact absurd h hb
+
+theorem bOkA (H : HashFn) (s : Sig) (x : VCtx) (w : World) (id : Nat) : (evalRule (ρA H s x w) (.basic id)).isOk ↔ okB (ρA H s x w id) :=
+  basic_isOk _ _
+
+/-! ## key-based -/
+
+/-- the authentication record's signature verifies with a listed certificate that is valid at the aggregation time -/
+def BoundKey (s : Sig) (w : World) : Prop :=
+  ∃ c cid st sv data pf cr, s.cal = some c ∧ s.auth ≠ none ∧ w.authSig = some (cid, st, sv, data) ∧ w.pubfile = .ok pf ∧
+    certById pf.certs cid = some cr ∧
+    (w.certWindow cr.cert).1 ≤ c.aggrTime.getD c.pubTime ∧ c.aggrTime.getD c.pubTime ≤ (w.certWindow cr.cert).2 ∧
+    w.rawSigOK data st sv cr.cert = true
+
+theorem k_calPresent (H : HashFn) (s : Sig) (x : VCtx) (w : World) (h : okB (ρA H s x w 21)) : s.cal ≠ none := by
+  have : ρA H s x w 21 = ruleA H s x w "CalendarHashChainPresenceVerification" := rfl
+  rw [this] at h; simp only [ruleA] at h
+  have := okIf_ok _ _ not_okB_naGen h
+  intro hn; rw [hn] at this; cases this
+
+theorem k_authPresent (H : HashFn) (s : Sig) (x : VCtx) (w : World) (h : okB (ρA H s x w 13)) : s.auth ≠ none := by
+  have : ρA H s x w 13 = ruleA H s x w "CalendarAuthenticationRecordPresenceVerification" := rfl
+  rw [this] at h; simp only [ruleA] at h
+  have := okIf_ok _ _ not_okB_naGen h
+  intro hn; rw [hn] at this; cases this
+
+theorem k_validity (H : HashFn) (s : Sig) (x : VCtx) (w : World) (h : okB (ρA H s x w 24)) :
+    ∃ c cid st sv data pf cr, s.cal = some c ∧ w.authSig = some (cid, st, sv, data) ∧ w.pubfile = .ok pf ∧ certById pf.certs cid = some cr ∧
+      (w.certWindow cr.cert).1 ≤ c.aggrTime.getD c.pubTime ∧ c.aggrTime.getD c.pubTime ≤ (w.certWindow cr.cert).2 := by
+  have : ρA H s x w 24 = ruleA H s x w "CertificateValidity" := rfl
+  rw [this] at h; simp only [ruleA] at h
+  cases ha : w.authSig with
+  | none => rw [ha] at h; exact absurd h (not_okB_err _)
+  | some a =>
+    obtain ⟨cid, st, sv, data⟩ := a
+    rw [ha] at h
+    cases hp : w.pubfile with
+    | error e => rw [hp] at h; exact absurd h (not_okB_resourceFailure e)
+    | ok pf =>
+      rw [hp] at h
+      cases hc : s.cal with
+      | none => rw [hc] at h; exact absurd h (not_okB_err _)
+      | some c =>
+        rw [hc] at h
+        simp only at h
+        cases hcr : certById pf.certs cid with
+        | none => rw [hcr] at h; exact absurd h (not_okB_err _)
+        | some cr =>
+          rw [hcr] at h
+          simp only at h
+          have := okIf_ok _ _ (not_okB_fail _) h
+          simp only [Bool.not_eq_true', Bool.or_eq_false_iff, decide_eq_false_iff_not, Nat.not_lt] at this
+          exact ⟨c, cid, st, sv, data, pf, cr, rfl, rfl, rfl, hcr, this.1, this.2⟩
+
+theorem k_signature (H : HashFn) (s : Sig) (x : VCtx) (w : World) (h : okB (ρA H s x w 14)) :
+    ∃ cid st sv data pf cr, w.authSig = some (cid, st, sv, data) ∧ w.pubfile = .ok pf ∧ certById pf.certs cid = some cr ∧
+      w.rawSigOK data st sv cr.cert = true := by
+  have : ρA H s x w 14 = ruleA H s x w "CalendarAuthenticationRecordSignatureVerification" := rfl
+  rw [this] at h; simp only [ruleA] at h
+  cases ha : w.authSig with
+  | none => rw [ha] at h; exact absurd h (not_okB_err _)
+  | some a =>
+    obtain ⟨cid, st, sv, data⟩ := a
+    rw [ha] at h
+    cases hp : w.pubfile with
+    | error e => rw [hp] at h; exact absurd h (not_okB_resourceFailure e)
+    | ok pf =>
+      rw [hp] at h
+      simp only at h
+      cases hcr : certById pf.certs cid with
+      | none => rw [hcr] at h; exact absurd h (not_okB_err _)
+      | some cr =>
+        rw [hcr] at h
+        simp only at h
+        exact ⟨cid, st, sv, data, pf, cr, rfl, rfl, hcr, okIf_ok _ _ (not_okB_fail _) h⟩
+
+/-- the rules of the key-based policy after the internal ones -/
+def keyRules : List Rule := [.basic 21, .basic 19, .basic 13, .basic 23, .basic 24, .basic 14]
+
+theorem keyRules_ok (H : HashFn) (s : Sig) (x : VCtx) (w : World) (h : (evalList (ρA H s x w) keyRules).isOk) : BoundKey s w := by
+  unfold keyRules at h
+  rw [evalList_and_ok _ _ (by simp) (by simp [Rule.isOr])] at h
+  have h13 := (bOkA H s x w 13).mp (h _ (by simp))
+  have h24 := (bOkA H s x w 24).mp (h _ (by simp))
+  have h14 := (bOkA H s x w 14).mp (h _ (by simp))
+  obtain ⟨c, cid, st, sv, data, pf, cr, hc, ha, hp, hcr, hw1, hw2⟩ := k_validity H s x w h24
+  obtain ⟨cid', st', sv', data', pf', cr', ha', hp', hcr', hs⟩ := k_signature H s x w h14
+  rw [ha] at ha'; cases ha'
+  rw [hp] at hp'; cases hp'
+  rw [hcr] at hcr'; cases hcr'
+  exact ⟨c, cid, st, sv, data, pf, cr, hc, k_authPresent H s x w h13, ha, hp, hcr, hw1, hw2, hs⟩
+
+theorem key_tree : Gen.policy_key = some (.and internalList :: keyRules) := rfl
+
+/-- **Key-based policy.** OK only for an internally consistent signature whose authentication record is signed by a listed
+certificate valid at the aggregation time. -/
+theorem key_ok_only_if (H : HashFn) (s : Sig) (x : VCtx) (w : World) (h : (verifyIn H Gen.policy_key s x w).isOK) :
+    Consistent H s x ∧ BoundKey s w := by
+  refine ⟨never_ok_unless_consistent H s x w _ (by simp [five]) h, ?_⟩
+  unfold verifyIn Verdict.isOK at h
+  rw [key_tree, verify_single_ok] at h
+  have := (evalList_cons_and_ok _ (.and internalList) (.basic 21) _ rfl).mp h
+  exact keyRules_ok H s x w this.2
+
+/-! ## what an extension has to reproduce -/
+
+/-- an extended chain `c` reproduces the anchor `(time, imprint)` for this signature: its root is the anchor's hash, its
+publication time the anchor's time, it starts at the signature's own aggregation time and from its aggregation root -/
+def Reproduces (H : HashFn) (s : Sig) (c : CalChain) (time : Nat) (imprint : Bytes) : Prop :=
+  calRootOf H c = .ok imprint ∧ c.pubTime = time ∧ c.aggrTime = some s.signTime ∧ aggrOut H s = some c.inputHash
+
+theorem beq_bytes {a b : Option Bytes} (h : (a == b) = true) : a = b := by simpa using h
+
+/-! ## user-publication-based -/
+
+def BoundUser (H : HashFn) (s : Sig) (w : World) : Prop :=
+  ∃ u, w.userPub = some u ∧
+    ((∃ p, s.pub = some p ∧ p.time = u.time ∧ p.imprint = u.imprint) ∨
+     (w.extendingAllowed = true ∧ ∃ c, chainOf s w .user = .ok c ∧ Reproduces H s c u.time u.imprint))
+
+section user
+variable (H : HashFn) (s : Sig) (x : VCtx) (w : World)
+
+theorem u_time (h : okB (ρA H s x w 67)) : ∃ p u, s.pub = some p ∧ w.userPub = some u ∧ p.time = u.time := by
+  have : ρA H s x w 67 = ruleA H s x w "UserProvidedPublicationTimeVerification" := rfl
+  rw [this] at h; simp only [ruleA] at h
+  cases hp : s.pub with
+  | none => rw [hp] at h; exact absurd h (not_okB_err _)
+  | some p =>
+    cases hu : w.userPub with
+    | none => rw [hp, hu] at h; exact absurd h (not_okB_err _)
+    | some u =>
+      rw [hp, hu] at h
+      exact ⟨p, u, rfl, rfl, by simpa using okIf_ok _ _ not_okB_naGen h⟩
+
+theorem u_hash (h : okB (ρA H s x w 63)) : ∃ p u, s.pub = some p ∧ w.userPub = some u ∧ p.imprint = u.imprint := by
+  have : ρA H s x w 63 = ruleA H s x w "UserProvidedPublicationHashVerification" := rfl
+  rw [this] at h; simp only [ruleA] at h
+  cases hp : s.pub with
+  | none => rw [hp] at h; exact absurd h (not_okB_err _)
+  | some p =>
+    cases hu : w.userPub with
+    | none => rw [hp, hu] at h; exact absurd h (not_okB_err _)
+    | some u =>
+      rw [hp, hu] at h
+      exact ⟨p, u, rfl, rfl, by simpa using okIf_ok _ _ (not_okB_fail _) h⟩
+
+theorem u_permitted (h : okB (ρA H s x w 61)) : w.extendingAllowed = true := by
+  have : ρA H s x w 61 = ruleA H s x w "UserProvidedPublicationExtendingPermittedVerification" := rfl
+  rw [this] at h; simp only [ruleA] at h
+  exact okIf_ok _ _ not_okB_naGen h
+
+theorem u_root (h : okB (ρA H s x w 62)) : ∃ c u, chainOf s w .user = .ok c ∧ w.userPub = some u ∧ calRootOf H c = .ok u.imprint := by
+  have : ρA H s x w 62 = ruleA H s x w "UserProvidedPublicationHashMatchesExtendedResponse" := rfl
+  rw [this] at h; simp only [ruleA] at h
+  cases hc : chainOf s w .user with
+  | error e => rw [hc] at h; exact absurd h (not_okB_err _)
+  | ok c =>
+    cases hu : w.userPub with
+    | none => rw [hc, hu] at h; exact absurd h (not_okB_err _)
+    | some u =>
+      rw [hc, hu] at h
+      simp only at h
+      cases hr : calRootOf H c with
+      | error e => rw [hr] at h; exact absurd h (not_okB_err _)
+      | ok r =>
+        rw [hr] at h
+        have := okIf_ok _ _ (not_okB_fail _) h
+        exact ⟨c, u, rfl, rfl, by rw [hr, show r = u.imprint by simpa using this]⟩
+
+theorem u_times (h : okB (ρA H s x w 66)) :
+    ∃ c u, chainOf s w .user = .ok c ∧ w.userPub = some u ∧ c.pubTime = u.time ∧ c.aggrTime = some s.signTime := by
+  have : ρA H s x w 66 = ruleA H s x w "UserProvidedPublicationTimeMatchesExtendedResponse" := rfl
+  rw [this] at h; simp only [ruleA] at h
+  cases hc : chainOf s w .user with
+  | error e => rw [hc] at h; exact absurd h (not_okB_err _)
+  | ok c =>
+    cases hu : w.userPub with
+    | none => rw [hc, hu] at h; exact absurd h (not_okB_err _)
+    | some u =>
+      rw [hc, hu] at h
+      simp only at h
+      by_cases ht : (u.time != c.pubTime) = true
+      · rw [if_pos ht] at h; exact absurd h (not_okB_fail _)
+      · rw [if_neg ht] at h
+        have h1 : u.time = c.pubTime := by simpa using ht
+        have h2 := okIf_ok _ _ (not_okB_fail _) h
+        exact ⟨c, u, rfl, rfl, h1.symm, by simpa using h2⟩
+
+theorem u_input (h : okB (ρA H s x w 60)) : ∃ c, chainOf s w .user = .ok c ∧ aggrOut H s = some c.inputHash := by
+  have : ρA H s x w 60 = ruleA H s x w "UserProvidedPublicationExtendedSignatureInputHash" := rfl
+  rw [this] at h; simp only [ruleA] at h
+  cases hc : chainOf s w .user with
+  | error e => rw [hc] at h; exact absurd h (not_okB_err _)
+  | ok c =>
+    rw [hc] at h
+    exact ⟨c, rfl, beq_bytes (okIf_ok _ _ (not_okB_fail _) h)⟩
+
+theorem u_exists (h : okB (ρA H s x w 57)) : w.userPub ≠ none := by
+  have : ρA H s x w 57 = ruleA H s x w "UserProvidedPublicationExistence" := rfl
+  rw [this] at h; simp only [ruleA] at h
+  intro hn; rw [hn] at h; exact absurd h not_okB_naNone
+
+def and7u : Rule := .and [.basic 56, .basic 61, .basic 58, .basic 59, .basic 62, .basic 66, .basic 60]
+def userX : Rule := .and [.or [.basic 52, .or [.basic 67, .basic 63, .basic 64], .or [.basic 65, and7u]], .or [.basic 53, and7u]]
+
+/-- the extension branch of the user-publication rules -/
+theorem and7u_ok (h : (evalRule (ρA H s x w) and7u).isOk) :
+    w.extendingAllowed = true ∧ ∃ c u, chainOf s w .user = .ok c ∧ w.userPub = some u ∧ Reproduces H s c u.time u.imprint := by
+  unfold and7u at h
+  rw [evalRule_and, evalList_and_ok _ _ (by simp) (by simp [Rule.isOr])] at h
+  have h61 := u_permitted H s x w ((bOkA H s x w 61).mp (h _ (by simp)))
+  obtain ⟨c, u, hc, hu, hr⟩ := u_root H s x w ((bOkA H s x w 62).mp (h _ (by simp)))
+  obtain ⟨c2, u2, hc2, hu2, ht1, ht2⟩ := u_times H s x w ((bOkA H s x w 66).mp (h _ (by simp)))
+  obtain ⟨c3, hc3, hi⟩ := u_input H s x w ((bOkA H s x w 60).mp (h _ (by simp)))
+  rw [hc] at hc2 hc3; cases hc2; cases hc3
+  rw [hu] at hu2; cases hu2
+  exact ⟨h61, c, u, hc, hu, hr, ht1, ht2, hi⟩
+
+theorem userX_ok (h : (evalRule (ρA H s x w) userX).isOk) : BoundUser H s w := by
+  unfold userX at h
+  rw [evalRule_and, evalList_cons_or_ok _ _ _ _ rfl] at h
+  have ext : (evalRule (ρA H s x w) and7u).isOk → BoundUser H s w := by
+    intro h7
+    obtain ⟨hp, c, u, hc, hu, hr⟩ := and7u_ok H s x w h7
+    exact ⟨u, hu, Or.inr ⟨hp, c, hc, hr⟩⟩
+  rcases h with h | ⟨_, h⟩
+  · -- the signature carries a publication record
+    rw [evalRule_or, evalList_cons_and_ok _ _ _ _ rfl, evalList_cons_or_ok _ _ _ _ rfl] at h
+    rcases h.2 with h2 | ⟨_, h2⟩
+    · rw [evalRule_or, evalList_and_ok _ _ (by simp) (by simp [Rule.isOr])] at h2
+      obtain ⟨p, u, hp, hu, ht⟩ := u_time H s x w ((bOkA H s x w 67).mp (h2 _ (by simp)))
+      obtain ⟨p2, u2, hp2, hu2, hh⟩ := u_hash H s x w ((bOkA H s x w 63).mp (h2 _ (by simp)))
+      rw [hp] at hp2; cases hp2
+      rw [hu] at hu2; cases hu2
+      exact ⟨u, hu, Or.inl ⟨p, hp, ht, hh⟩⟩
+    · rw [evalList_single, evalRule_or, evalList_cons_and_ok _ _ _ _ rfl, evalList_single] at h2
+      exact ext h2.2
+  · rw [evalList_single, evalRule_or, evalList_cons_and_ok _ _ _ _ rfl, evalList_single] at h
+    exact ext h.2
+
+theorem userpub_tree : Gen.policy_userpub = some [.and internalList, .basic 57, userX] := rfl
+
+/-- **User-publication-based policy.** OK only for an internally consistent signature whose publication record is the
+user's publication (time and hash), or — extending allowed — whose extension to the user's publication time reproduces it. -/
+theorem userpub_ok_only_if (h : (verifyIn H Gen.policy_userpub s x w).isOK) : Consistent H s x ∧ BoundUser H s w := by
+  refine ⟨never_ok_unless_consistent H s x w _ (by simp [five]) h, ?_⟩
+  unfold verifyIn Verdict.isOK at h
+  rw [userpub_tree, verify_single_ok, evalList_and_ok _ _ (by simp) (by simp [Rule.isOr, userX])] at h
+  exact userX_ok H s x w (h _ (by simp))
+
+end user
+
+/-! ## publications-file-based -/
+
+def BoundPubfile (H : HashFn) (s : Sig) (w : World) : Prop :=
+  ∃ pf, w.pubfile = .ok pf ∧
+    ((∃ p q, s.pub = some p ∧ findPub pf.pubs p.time p.imprint = some q) ∨
+     (w.extendingAllowed = true ∧ ∃ q c, nearestPub s pf = some q ∧ chainOf s w .pubfile = .ok c ∧ Reproduces H s c q.time q.imprint))
+
+section pubfile
+variable (H : HashFn) (s : Sig) (x : VCtx) (w : World)
+
+theorem p_sigPub (h : okB (ρA H s x w 45)) : ∃ p pf q, s.pub = some p ∧ w.pubfile = .ok pf ∧ findPub pf.pubs p.time p.imprint = some q := by
+  have : ρA H s x w 45 = ruleA H s x w "PublicationsFileSignaturePublicationVerification" := rfl
+  rw [this] at h; simp only [ruleA] at h
+  cases hp : s.pub with
+  | none => rw [hp] at h; exact absurd h (not_okB_err _)
+  | some p =>
+    cases hf : w.pubfile with
+    | error e => rw [hp, hf] at h; exact absurd h (not_okB_resourceFailure e)
+    | ok pf =>
+      rw [hp, hf] at h
+      have := okIf_ok _ _ (not_okB_fail _) h
+      cases hq : findPub pf.pubs p.time p.imprint with
+      | none => rw [hq] at this; cases this
+      | some q => exact ⟨p, pf, q, rfl, rfl, hq⟩
+
+theorem p_permitted (h : okB (ρA H s x w 41)) : w.extendingAllowed = true := by
+  have : ρA H s x w 41 = ruleA H s x w "PublicationsFileExtendingPermittedVerification" := rfl
+  rw [this] at h; simp only [ruleA] at h
+  exact okIf_ok _ _ not_okB_naGen h
+
+theorem p_root (h : okB (ρA H s x w 42)) :
+    ∃ pf q c, w.pubfile = .ok pf ∧ nearestPub s pf = some q ∧ chainOf s w .pubfile = .ok c ∧ calRootOf H c = .ok q.imprint := by
+  have : ρA H s x w 42 = ruleA H s x w "PublicationsFilePublicationHashMatchesExtenderResponse" := rfl
+  rw [this] at h; simp only [ruleA] at h
+  cases hf : w.pubfile with
+  | error e => rw [hf] at h; exact absurd h (not_okB_resourceFailure e)
+  | ok pf =>
+    rw [hf] at h
+    simp only at h
+    cases hq : nearestPub s pf with
+    | none =>
+      rw [hq] at h
+      cases hc : chainOf s w .pubfile with
+      | error e => rw [hc] at h; exact absurd h (not_okB_err _)
+      | ok c => rw [hc] at h; exact absurd h (not_okB_err _)
+    | some q =>
+      rw [hq] at h
+      cases hc : chainOf s w .pubfile with
+      | error e => rw [hc] at h; exact absurd h (not_okB_err _)
+      | ok c =>
+        rw [hc] at h
+        simp only at h
+        cases hr : calRootOf H c with
+        | error e => rw [hr] at h; exact absurd h (not_okB_err _)
+        | ok r =>
+          rw [hr] at h
+          have := okIf_ok _ _ (not_okB_fail _) h
+          exact ⟨pf, q, c, rfl, hq, rfl, by rw [hr, show r = q.imprint by simpa using this]⟩
+
+theorem p_times (h : okB (ρA H s x w 43)) :
+    ∃ pf q c, w.pubfile = .ok pf ∧ nearestPub s pf = some q ∧ chainOf s w .pubfile = .ok c ∧ c.pubTime = q.time ∧ c.aggrTime = some s.signTime := by
+  have : ρA H s x w 43 = ruleA H s x w "PublicationsFilePublicationTimeMatchesExtenderResponse" := rfl
+  rw [this] at h; simp only [ruleA] at h
+  cases hf : w.pubfile with
+  | error e => rw [hf] at h; exact absurd h (not_okB_resourceFailure e)
+  | ok pf =>
+    rw [hf] at h
+    simp only at h
+    cases hq : nearestPub s pf with
+    | none =>
+      rw [hq] at h
+      cases hc : chainOf s w .pubfile with
+      | error e => rw [hc] at h; exact absurd h (not_okB_err _)
+      | ok c => rw [hc] at h; exact absurd h (not_okB_err _)
+    | some q =>
+      rw [hq] at h
+      cases hc : chainOf s w .pubfile with
+      | error e => rw [hc] at h; exact absurd h (not_okB_err _)
+      | ok c =>
+        rw [hc] at h
+        simp only at h
+        by_cases ht : (q.time != c.pubTime) = true
+        · rw [if_pos ht] at h; exact absurd h (not_okB_fail _)
+        · rw [if_neg ht] at h
+          have h1 : q.time = c.pubTime := by simpa using ht
+          have h2 := okIf_ok _ _ (not_okB_fail _) h
+          exact ⟨pf, q, c, rfl, hq, rfl, h1.symm, by simpa using h2⟩
+
+theorem p_input (h : okB (ρA H s x w 40)) : ∃ c, chainOf s w .pubfile = .ok c ∧ aggrOut H s = some c.inputHash := by
+  have : ρA H s x w 40 = ruleA H s x w "PublicationsFileExtendedSignatureInputHash" := rfl
+  rw [this] at h; simp only [ruleA] at h
+  cases hf : w.pubfile with
+  | error e => rw [hf] at h; exact absurd h (not_okB_resourceFailure e)
+  | ok pf =>
+    rw [hf] at h
+    simp only at h
+    cases hc : chainOf s w .pubfile with
+    | error e => rw [hc] at h; exact absurd h (not_okB_err _)
+    | ok c =>
+      rw [hc] at h
+      exact ⟨c, rfl, beq_bytes (okIf_ok _ _ (not_okB_fail _) h)⟩
+
+def and7p : Rule := .and [.basic 36, .basic 41, .basic 38, .basic 39, .basic 42, .basic 43, .basic 40]
+def pubX : Rule := .and [.or [.basic 52, .or [.basic 35, .basic 45, .basic 44], .or [.basic 37, and7p]], .or [.basic 53, and7p]]
+
+theorem and7p_ok (h : (evalRule (ρA H s x w) and7p).isOk) : BoundPubfile H s w := by
+  unfold and7p at h
+  rw [evalRule_and, evalList_and_ok _ _ (by simp) (by simp [Rule.isOr])] at h
+  have h41 := p_permitted H s x w ((bOkA H s x w 41).mp (h _ (by simp)))
+  obtain ⟨pf, q, c, hf, hq, hc, hr⟩ := p_root H s x w ((bOkA H s x w 42).mp (h _ (by simp)))
+  obtain ⟨pf2, q2, c2, hf2, hq2, hc2, ht1, ht2⟩ := p_times H s x w ((bOkA H s x w 43).mp (h _ (by simp)))
+  obtain ⟨c3, hc3, hi⟩ := p_input H s x w ((bOkA H s x w 40).mp (h _ (by simp)))
+  rw [hf] at hf2; cases hf2
+  rw [hq] at hq2; cases hq2
+  rw [hc] at hc2 hc3; cases hc2; cases hc3
+  exact ⟨pf, hf, Or.inr ⟨h41, q, c, hq, hc, hr, ht1, ht2, hi⟩⟩
+
+theorem pubX_ok (h : (evalRule (ρA H s x w) pubX).isOk) : BoundPubfile H s w := by
+  unfold pubX at h
+  rw [evalRule_and, evalList_cons_or_ok _ _ _ _ rfl] at h
+  rcases h with h | ⟨_, h⟩
+  · rw [evalRule_or, evalList_cons_and_ok _ _ _ _ rfl, evalList_cons_or_ok _ _ _ _ rfl] at h
+    rcases h.2 with h2 | ⟨_, h2⟩
+    · rw [evalRule_or, evalList_and_ok _ _ (by simp) (by simp [Rule.isOr])] at h2
+      obtain ⟨p, pf, q, hp, hf, hq⟩ := p_sigPub H s x w ((bOkA H s x w 45).mp (h2 _ (by simp)))
+      exact ⟨pf, hf, Or.inl ⟨p, q, hp, hq⟩⟩
+    · rw [evalList_single, evalRule_or, evalList_cons_and_ok _ _ _ _ rfl, evalList_single] at h2
+      exact and7p_ok H s x w h2.2
+  · rw [evalList_single, evalRule_or, evalList_cons_and_ok _ _ _ _ rfl, evalList_single] at h
+    exact and7p_ok H s x w h.2
+
+theorem pubfile_tree : Gen.policy_pubfile = some [.and internalList, pubX] := rfl
+
+/-- **Publications-file-based policy.** OK only for an internally consistent signature whose publication record (time and
+hash) is in the file, or — extending allowed — whose extension to the nearest publication of the file reproduces that one. -/
+theorem pubfile_ok_only_if (h : (verifyIn H Gen.policy_pubfile s x w).isOK) : Consistent H s x ∧ BoundPubfile H s w := by
+  refine ⟨never_ok_unless_consistent H s x w _ (by simp [five]) h, ?_⟩
+  unfold verifyIn Verdict.isOK at h
+  rw [pubfile_tree, verify_single_ok, evalList_cons_and_ok _ _ _ _ rfl, evalList_single] at h
+  exact pubX_ok H s x w h.2
+
+end pubfile
+
+/-! ## calendar-based -/
+
+/-- the extender's chain for the signature's aggregation time starts from its aggregation root at its aggregation time and,
+when the signature has a calendar chain, agrees with it: same right links (no publication record) or same root -/
+def BoundCalendar (H : HashFn) (s : Sig) (w : World) : Prop :=
+  ∃ c a, chainOf s w (calKind s) = .ok c ∧ aggrOut H s = some c.inputHash ∧ s.chains.head? = some a ∧ a.time = c.aggrTime.getD c.pubTime ∧
+    (∀ old, s.cal = some old →
+      ((s.pub = none ∧ rightsOf old = rightsOf c) ∨ (s.pub ≠ none ∧ ∃ r, calRootOf H old = .ok r ∧ calRootOf H c = .ok r)))
+
+section calendar
+variable (H : HashFn) (s : Sig) (x : VCtx) (w : World)
+
+theorem c_input (h : okB (ρA H s x w 31)) : ∃ c, chainOf s w (calKind s) = .ok c ∧ aggrOut H s = some c.inputHash := by
+  have : ρA H s x w 31 = ruleA H s x w "ExtendedSignatureCalendarChainInputHash" := rfl
+  rw [this] at h; simp only [ruleA] at h
+  cases hc : chainOf s w (calKind s) with
+  | error e => rw [hc] at h; exact absurd h (not_okB_err _)
+  | ok c => rw [hc] at h; exact ⟨c, rfl, beq_bytes (okIf_ok _ _ (not_okB_fail _) h)⟩
+
+theorem c_time (h : okB (ρA H s x w 30)) :
+    ∃ c a, chainOf s w (calKind s) = .ok c ∧ s.chains.head? = some a ∧ a.time = c.aggrTime.getD c.pubTime := by
+  have : ρA H s x w 30 = ruleA H s x w "ExtendedSignatureCalendarChainAggregationTime" := rfl
+  rw [this] at h; simp only [ruleA] at h
+  cases hc : chainOf s w (calKind s) with
+  | error e => rw [hc] at h; exact absurd h (not_okB_err _)
+  | ok c =>
+    rw [hc] at h
+    cases ha : s.chains.head? with
+    | none => rw [ha] at h; exact absurd h (not_okB_err _)
+    | some a =>
+      rw [ha] at h
+      exact ⟨c, a, rfl, rfl, by simpa using okIf_ok _ _ (not_okB_fail _) h⟩
+
+theorem c_rights (h : okB (ρA H s x w 32)) : ∃ c old, chainOf s w .samePub = .ok c ∧ s.cal = some old ∧ rightsOf old = rightsOf c := by
+  have : ρA H s x w 32 = ruleA H s x w "ExtendedSignatureCalendarChainRightLinksMatch" := rfl
+  rw [this] at h; simp only [ruleA] at h
+  cases hc : chainOf s w .samePub with
+  | error e => rw [hc] at h; exact absurd h (not_okB_err _)
+  | ok c =>
+    rw [hc] at h
+    cases ho : s.cal with
+    | none => rw [ho] at h; exact absurd h (not_okB_err _)
+    | some old =>
+      rw [ho] at h
+      exact ⟨c, old, rfl, rfl, by simpa using okIf_ok _ _ (not_okB_fail _) h⟩
+
+theorem c_root (h : okB (ρA H s x w 33)) :
+    ∃ c old r, chainOf s w .samePub = .ok c ∧ s.cal = some old ∧ calRootOf H old = .ok r ∧ calRootOf H c = .ok r := by
+  have : ρA H s x w 33 = ruleA H s x w "ExtendedSignatureCalendarChainRootHash" := rfl
+  rw [this] at h; simp only [ruleA] at h
+  cases hc : chainOf s w .samePub with
+  | error e => rw [hc] at h; exact absurd h (not_okB_err _)
+  | ok c =>
+    rw [hc] at h
+    cases ho : s.cal with
+    | none => rw [ho] at h; exact absurd h (not_okB_err _)
+    | some old =>
+      rw [ho] at h
+      simp only at h
+      cases h1 : calRootOf H old with
+      | error e => rw [h1] at h; exact absurd h (not_okB_err _)
+      | ok r1 =>
+        cases h2 : calRootOf H c with
+        | error e => rw [h1, h2] at h; exact absurd h (not_okB_err _)
+        | ok r2 =>
+          rw [h1, h2] at h
+          have : r1 = r2 := by simpa using okIf_ok _ _ (not_okB_fail _) h
+          exact ⟨c, old, r1, rfl, rfl, h1, by rw [h2, this]⟩
+
+def anchorChoice : Rule := .and [.or [.basic 51, .basic 32], .or [.basic 52, .basic 33]]
+def calX : Rule := .and [.or [.basic 17, .basic 28, .basic 31, .basic 30], .or [.basic 18, .basic 29, anchorChoice, .basic 31, .basic 30]]
+
+theorem calKind_none (h : s.cal = none) : calKind s = .head := by unfold calKind; rw [h]; rfl
+theorem calKind_some (h : s.cal ≠ none) : calKind s = .samePub := by
+  unfold calKind
+  cases hc : s.cal with
+  | none => exact absurd hc h
+  | some c => rfl
+
+theorem calX_ok (h : (evalRule (ρA H s x w) calX).isOk) : BoundCalendar H s w := by
+  unfold calX at h
+  rw [evalRule_and, evalList_cons_or_ok _ _ _ _ rfl] at h
+  rcases h with h | ⟨_, h⟩
+  · -- no calendar chain in the signature: extension to the calendar head
+    rw [evalRule_or, evalList_and_ok _ _ (by simp) (by simp [Rule.isOr])] at h
+    have h17 : okB (rule H s x "CalendarHashChainDoesNotExist") := (bOkA H s x w 17).mp (h _ (by simp))
+    have hnone := (r_calNotExist H s x).1.mp h17
+    obtain ⟨c, hc, hi⟩ := c_input H s x w ((bOkA H s x w 31).mp (h _ (by simp)))
+    obtain ⟨c2, a, hc2, ha, ht⟩ := c_time H s x w ((bOkA H s x w 30).mp (h _ (by simp)))
+    rw [hc] at hc2; cases hc2
+    exact ⟨c, a, hc, hi, ha, ht, fun old ho => by rw [hnone] at ho; cases ho⟩
+  · rw [evalList_single, evalRule_or, evalList_and_ok _ _ (by simp) (by simp [Rule.isOr, anchorChoice])] at h
+    have h18 : okB (rule H s x "CalendarHashChainExistence") := (bOkA H s x w 18).mp (h _ (by simp))
+    have hsome := (r_calExist H s x).mp h18
+    have hk := calKind_some s hsome
+    obtain ⟨c, hc, hi⟩ := c_input H s x w ((bOkA H s x w 31).mp (h _ (by simp)))
+    obtain ⟨c2, a, hc2, ha, ht⟩ := c_time H s x w ((bOkA H s x w 30).mp (h _ (by simp)))
+    rw [hc] at hc2; cases hc2
+    have hch : (evalRule (ρA H s x w) anchorChoice).isOk := h _ (by simp)
+    unfold anchorChoice at hch
+    rw [evalRule_and, evalList_cons_or_ok _ _ _ _ rfl] at hch
+    refine ⟨c, a, hc, hi, ha, ht, ?_⟩
+    intro old ho
+    rw [hk] at hc
+    rcases hch with h1 | ⟨_, h1⟩
+    · rw [evalRule_or, evalList_and_ok _ _ (by simp) (by simp [Rule.isOr])] at h1
+      have h51 : okB (rule H s x "SignatureDoesNotContainPublication") := (bOkA H s x w 51).mp (h1 _ (by simp))
+      obtain ⟨c3, old3, hc3, ho3, hr⟩ := c_rights H s x w ((bOkA H s x w 32).mp (h1 _ (by simp)))
+      rw [hc] at hc3; cases hc3
+      rw [ho] at ho3; cases ho3
+      exact Or.inl ⟨(r_pubNotExist H s x).1.mp h51, hr⟩
+    · rw [evalList_single, evalRule_or, evalList_and_ok _ _ (by simp) (by simp [Rule.isOr])] at h1
+      have h52 : okB (rule H s x "SignaturePublicationRecordExistence") := (bOkA H s x w 52).mp (h1 _ (by simp))
+      obtain ⟨c3, old3, r, hc3, ho3, hr1, hr2⟩ := c_root H s x w ((bOkA H s x w 33).mp (h1 _ (by simp)))
+      rw [hc] at hc3; cases hc3
+      rw [ho] at ho3; cases ho3
+      exact Or.inr ⟨(r_pubExist H s x).mp h52, r, hr1, hr2⟩
+
+theorem calendar_tree : Gen.policy_calendar = some [.and internalList, calX] := rfl
+
+/-- **Calendar-based policy.** OK only for an internally consistent signature for which the extender's (authenticated)
+chain starts from the signature's aggregation root at its aggregation time and agrees with the signature's own calendar
+chain — same right links, or, when the signature carries a publication record, the same root. -/
+theorem calendar_ok_only_if (h : (verifyIn H Gen.policy_calendar s x w).isOK) : Consistent H s x ∧ BoundCalendar H s w := by
+  refine ⟨never_ok_unless_consistent H s x w _ (by simp [five]) h, ?_⟩
+  unfold verifyIn Verdict.isOK at h
+  rw [calendar_tree, verify_single_ok, evalList_cons_and_ok _ _ _ _ rfl, evalList_single] at h
+  exact calX_ok H s x w h.2
+
+end calendar
+
+/-! ## general -/
+
+theorem general_tree : Gen.policy_general = some [.and internalList, .or [.and internalList, .basic 57, userX], .basic 46,
+    .or [.and internalList, pubX], .or (.and internalList :: keyRules)] := rfl
+
+/-- **General policy.** OK only for an internally consistent signature bound to the user's publication, to the publications
+file, or to a listed key. -/
+theorem general_ok_only_if (H : HashFn) (s : Sig) (x : VCtx) (w : World) (h : (verifyIn H Gen.policy_general s x w).isOK) :
+    Consistent H s x ∧ (BoundUser H s w ∨ BoundPubfile H s w ∨ BoundKey s w) := by
+  refine ⟨never_ok_unless_consistent H s x w _ (by simp [five]) h, ?_⟩
+  unfold verifyIn Verdict.isOK at h
+  rw [general_tree, verify_single_ok, evalList_cons_and_ok _ _ _ _ rfl, evalList_cons_or_ok _ _ _ _ rfl] at h
+  rcases h.2 with h1 | ⟨_, h1⟩
+  · rw [evalRule_or, evalList_and_ok _ _ (by simp) (by simp [Rule.isOr, userX])] at h1
+    exact Or.inl (userX_ok H s x w (h1 _ (by simp)))
+  · rw [evalList_cons_and_ok _ _ _ _ rfl, evalList_cons_or_ok _ _ _ _ rfl] at h1
+    rcases h1.2 with h2 | ⟨_, h2⟩
+    · rw [evalRule_or, evalList_cons_and_ok _ _ _ _ rfl, evalList_single] at h2
+      exact Or.inr (Or.inl (pubX_ok H s x w h2.2))
+    · rw [evalList_single, evalRule_or] at h2
+      have := (evalList_cons_and_ok _ (.and internalList) (.basic 21) _ rfl).mp h2
+      exact Or.inr (Or.inr (keyRules_ok H s x w this.2))
+
 end KsiVerif.Props.C04
